@@ -171,6 +171,12 @@ def check_manifest(case) -> Outcome:
         try:
             broot = etree.fromstring(br.body)
             hs, bs = mpd.shape(hroot), mpd.shape(broot)
+            # MPD/Location is only written when the request carries at least one option that differs from its
+            # default: a generated value that happens to BE the default (ping__value=0) removes the element.
+            # That is option handling, not structure created by a string (thorough tier, seed 2).
+            for shp in (hs, bs):
+                for k in [k for k in shp if str(k[0]).endswith("}Location")]:
+                    del shp[k]
             if hs != bs:
                 diff = [(k, hs.get(k, 0), bs.get(k, 0)) for k in set(hs) | set(bs) if hs.get(k, 0) != bs.get(k, 0)]
                 out.fail(f"shape-changed-by-string/{case['template']}", f"{desc}: {diff[:4]}")
